@@ -1,7 +1,12 @@
 #!/opt/veriftools/pyvenv/bin/python
-import json, jsonschema, glob, sys
-jsonschema.validate(json.load(open('/verif/MANIFEST.json')), json.load(open('/root/.vp/MANIFEST.schema.json')))
+import json, jsonschema, os
+m = json.load(open('/verif/MANIFEST.json'))
+jsonschema.validate(m, json.load(open('/root/.vp/MANIFEST.schema.json')))
 es = json.load(open('/root/.vp/EVIDENCE.schema.json'))
-for f in sorted(glob.glob('/verif/evidence/*.json')):
-    jsonschema.validate(json.load(open(f)), es)
-print('manifest and', len(glob.glob('/verif/evidence/*.json')), 'evidence files valid')
+n = 0
+for c in m['checks']:
+    f = c['evidence_file']
+    if not os.path.exists(f):
+        print('MISSING evidence', f); continue
+    jsonschema.validate(json.load(open(f)), es); n += 1
+print('manifest valid;', n, 'evidence files of claimed checks valid')
